@@ -554,15 +554,15 @@ t1Operators = [
 class T2StackUseExtractor(SimpleT2Decompiler):
 
     def execute(self, charString):
-        maxStackUse = 0
+        if not self.callingStack:
+            self.maxStackUse = 0
 
         def pushToStack(value):
-            nonlocal maxStackUse
             self.operandStack.append(value)
-            maxStackUse = max(maxStackUse, len(self.operandStack))
+            self.maxStackUse = max(self.maxStackUse, len(self.operandStack))
 
         super().execute(charString, pushToStack=pushToStack)
-        return maxStackUse
+        return self.maxStackUse
 
 
 class T2WidthExtractor(SimpleT2Decompiler):
